@@ -18,7 +18,7 @@ TRUSTED = [
     "CBMC library models of strcmp/strlen/strchr/strcpy/memcpy/memset",
 ]
 ASSUMPTIONS = [
-    "bounded: path components / targets / locations of up to LEN bytes over the full byte alphabet without NUL and newline (quick: describe LEN<=2, split LEN<=4, handle_line LEN<=2)",
+    "bounded: path components / targets / locations of up to LEN bytes over the full byte alphabet without NUL and newline (quick: describe LEN<=2, split LEN<=3, handle_line LEN<=2)",
     "the two halves meet in the spec function Q (spec/quote_spec.h); printer output == Q(text) and split_line(Q(text)) == text are checked separately, never chained",
     "numeric fields are digit strings on both sides (printf %o/%u on one side, parse_uint on the other); their agreement is libc's",
     "file contents and the unpacked files (C01/C06), hard links (describe prints every name as an independent file), xattrs are outside C16",
@@ -51,7 +51,7 @@ def _sp(field, length):
 
 
 HARNESSES = [
-    dict(name="describe", file="describe.c", malloc_fail=True,
+    dict(name="describe", file="describe.c",
          include_dirs=["bin/rdsquashfs/src"],
          nochecks=["--conversion-check"],   # print_perm: (unsigned)mode & ~S_IFMT, int -> unsigned of a negative constant (well defined)
          label="bounded(len<=2)", timeout=1800,
@@ -59,11 +59,11 @@ HARNESSES = [
                [dict(_dl(k, 1), tier="quick") for k in (0, 1, 4)] +
                [dict(_dl(k, 3), tier="thorough", label="bounded(len<=3)") for k in (0, 1, 4)] +
                [dict(_dl(k, 2, 2), tier="thorough", label="bounded(len<=2,components<=2)") for k in (0, 1)]),
-    dict(name="split", file="split.c", label="bounded(len<=4)", timeout=2400,
-         cases=[dict(_sp(f, n), tier="quick", label="bounded(len<=4)")
-                for f in (0, 1) for n in range(1, 5)] +
+    dict(name="split", file="split.c", label="bounded(len<=3)", timeout=2400,
+         cases=[dict(_sp(f, n), tier="quick", label="bounded(len<=3)")
+                for f in (0, 1) for n in range(1, 4)] +
                [dict(_sp(f, n), tier="thorough", label="bounded(len<=8)")
-                for f in (0, 1) for n in range(5, 9)]),
+                for f in (0, 1) for n in range(4, 9)]),
     dict(name="handle_line", file="handle_line.c",
          include_dirs=["bin/gensquashfs/src"],
          nochecks=["--conversion-check"],
